@@ -24,6 +24,13 @@ pub fn gen_conc(property: &str, profile: &str, seed: u64) -> Plan {
     if plan.sched.preempt_jobs {
         plan.sched.inplace_small = false;
     }
+    // "+fsync": explicit fsyncdata calls issued by the clients themselves while writes keep crossing a tiny
+    // dirty-byte limit, so that explicit syncs meet background syncs in flight; few rotations
+    let fsync_mix = profile.split('+').any(|f| f == "fsync");
+    if fsync_mix {
+        plan.store.max_data_in_blob = *sw.rng.pick(&[16u64, 64, 64]);
+        plan.store.max_dirty = *sw.rng.pick(&[1u64, 100, 200, 400]);
+    }
     plan.n_keys = sw.rng.range(1, 6) as u8;
     sw.n_keys = plan.n_keys;
     plan.check_each_step = true; // only used by the sequential tail session
@@ -50,6 +57,7 @@ pub fn gen_conc(property: &str, profile: &str, seed: u64) -> Plan {
                 let key = sw.key();
                 let kind = match sw.rng.below(100) {
                     0..=44 => OpKind::Write { key, ts: sw.ts(), len: sw.rng.range(16, 48) as u32, meta: None },
+                    45..=64 if fsync_mix => OpKind::Fsync,
                     45..=64 => OpKind::Read { key },
                     65..=74 => OpKind::Contains { key },
                     75..=89 => OpKind::Delete { key, ts: sw.ts(), meta: None, only_if_presented: sw.rng.chance(1, 2) },
@@ -67,7 +75,7 @@ pub fn gen_conc(property: &str, profile: &str, seed: u64) -> Plan {
             for _ in 0..sw.rng.range(1, 10) {
                 let uid = sw.uid();
                 let think_ms = *sw.rng.pick(&[0u64, 1, 5, 100, 300]);
-                let kind = match sw.rng.below(10) {
+                let kind = match if fsync_mix { 5 + sw.rng.below(5) } else { sw.rng.below(10) } {
                     0 | 1 => OpKind::TryClose,
                     2 | 3 => OpKind::TryRestore,
                     4 => OpKind::TryCreate,
@@ -127,6 +135,13 @@ pub fn gen_live(property: &str, profile: &str, seed: u64) -> Plan {
     if let Latency::HeavyTail { .. } = plan.sched.latency {
         plan.sched.latency = Latency::Uniform(2);
     }
+    if profile.split('+').any(|f| f == "slowdump") {
+        // a steadily slow disk (no stall: every file operation takes 0..80 simulated ms) and small blobs: one
+        // deferred dump pass covers several closed blobs and outlasts the 200 ms dump quantum several times
+        plan.sched.latency = Latency::Uniform(80);
+        plan.store.max_data_in_blob = *sw.rng.pick(&[1u64, 2, 2, 3]);
+        plan.store.max_blob_size = 1_000_000;
+    }
     let mix = Mix { write: 30, delete: 14, idle: 10, lifecycle: 8, lifecycle_bg: 16, force: 8, free: 3, offload: 3, fsync: 3, restart: 0, clock: 4 };
     let n = sw.rng.range(4, 32) as usize;
     let mut ops = Vec::new();
@@ -144,6 +159,29 @@ pub fn gen_live(property: &str, profile: &str, seed: u64) -> Plan {
     ops.push(Op { uid, think_ms: 0, kind: OpKind::Idle { ms: dmax + 1_500 } });
     let uid = sw.uid();
     ops.push(Op { uid, think_ms: 0, kind: OpKind::CheckDumped });
+    if profile.split('+').any(|f| f == "closerace") {
+        // close() is otherwise only ever called on an idle storage with an active blob. Epilogue: a few
+        // writes, the active blob closed (by the call or by a background request), background requests that
+        // can or cannot apply still queued, an index dump in flight - and close() at once
+        let uid = sw.uid();
+        ops.push(Op { uid, think_ms: 0, kind: OpKind::QuietTail });
+        for _ in 0..sw.rng.range(0, 6) {
+            let uid = sw.uid();
+            let key = sw.key();
+            ops.push(Op { uid, think_ms: 0, kind: OpKind::Write { key, ts: sw.ts(), len: 24, meta: None } });
+        }
+        for _ in 0..sw.rng.range(1, 4) {
+            let uid = sw.uid();
+            let kind = match sw.rng.below(6) {
+                0 | 1 => OpKind::TryClose,
+                2 => OpKind::CloseBg,
+                3 => OpKind::CreateBg,
+                4 => OpKind::RestoreBg,
+                _ => OpKind::ForceUpdate(Pred::Always),
+            };
+            ops.push(Op { uid, think_ms: *sw.rng.pick(&[0u64, 0, 1, 3]), kind });
+        }
+    }
     plan.sessions = vec![SessionPlan::sequential(ops)];
     plan.sessions[0].lazy_init = sw.rng.chance(1, 4);
     plan
